@@ -195,11 +195,25 @@ Proof. repeat split; vm_compute; reflexivity. Qed.
 Definition key_alphabet : list N := digit_chars ++ [88; 120].
 Definition all_keys : list str := product [key_alphabet; key_alphabet; key_alphabet].
 
+Definition codes : list Z := map Z.of_nat (seq 0 1000).
+
+Fixpoint zlist_eqb (a b : list Z) : bool :=
+  match a, b with
+  | [], [] => true
+  | x :: a', y :: b' => Z.eqb x y && zlist_eqb a' b'
+  | _, _ => false
+  end.
+
+Lemma zlist_eqb_eq a : forall b, zlist_eqb a b = true -> a = b.
+Proof.
+  induction a as [|x a IH]; intros [|y b] H; try discriminate; [reflexivity|].
+  cbn in H. apply andb_true_iff in H. destruct H as [H1 H2]. apply Z.eqb_eq in H1. subst. f_equal. apply IH. exact H2.
+Qed.
+
+(* the expansion is exactly the increasing list of the codes the key matches *)
 Definition key_check (k : str) : bool :=
   match expand_status_code k with
-  | Some l =>
-      forallb (fun z => (0 <=? z)%Z && (z <? 1000)%Z) l
-      && forallb (fun n => Bool.eqb (existsb (Z.eqb (Z.of_nat n)) l) (key_matches k (Z.of_nat n))) (seq 0 1000)
+  | Some l => zlist_eqb l (filter (key_matches k) codes)
   | None => false
   end.
 
@@ -227,11 +241,10 @@ Proof.
   apply in_map. apply in_flat_map. exists c. split; [apply key_char_in; exact Hc|]. left. reflexivity.
 Qed.
 
-Lemma existsb_out_of_range code l :
-  forallb (fun z => (0 <=? z)%Z && (z <? 1000)%Z) l = true -> (code < 0 \/ 1000 <= code)%Z -> existsb (Z.eqb code) l = false.
+Lemma key_matches_range k code : key_matches k code = true -> (0 <= code < 1000)%Z.
 Proof.
-  intros H Hc. induction l as [|z l IH]; [reflexivity|]. cbn [forallb] in H. apply andb_true_iff in H. destruct H as [Hz Hl].
-  cbn [existsb]. rewrite (IH Hl). destruct (Z.eqb_spec code z); [lia|reflexivity].
+  destruct k as [|a [|b [|c [|? ?]]]]; try discriminate. unfold key_matches. intros H.
+  repeat (apply andb_true_iff in H; destruct H as [H ?]). lia.
 Qed.
 
 Lemma expand_spec k code : wf_key k = true ->
@@ -240,14 +253,10 @@ Proof.
   intros Hk. pose proof (wf_key_in _ Hk) as Hin.
   pose proof (proj1 (forallb_forall _ _) all_keys_check _ Hin) as Hc. unfold key_check in Hc.
   destruct (expand_status_code k) as [l|]; [|discriminate]. exists l. split; [reflexivity|].
-  apply andb_true_iff in Hc. destruct Hc as [Hr Hall].
-  destruct (Z_lt_ge_dec code 0) as [Hneg|Hnn]; [|destruct (Z_lt_ge_dec code 1000) as [Hlt|Hge]].
-  - rewrite (existsb_out_of_range _ _ Hr) by lia. destruct k as [|a [|b [|c [|? ?]]]]; try reflexivity.
-    unfold key_matches. destruct (0 <=? code)%Z eqn:E; [lia|reflexivity].
-  - pose proof (proj1 (forallb_forall _ _) Hall (Z.to_nat code)) as Hn.
-    rewrite Z2Nat.id in Hn by lia. apply eqb_prop. apply Hn. apply in_seq. lia.
-  - rewrite (existsb_out_of_range _ _ Hr) by lia. destruct k as [|a [|b [|c [|? ?]]]]; try reflexivity.
-    unfold key_matches. destruct (code <? 1000)%Z eqn:E; [lia|]. rewrite andb_false_r. reflexivity.
+  apply zlist_eqb_eq in Hc. subst l. apply eq_iff_eq_true. rewrite existsb_exists. split.
+  - intros [z [Hz He]]. apply Z.eqb_eq in He. subst z. apply filter_In in Hz. tauto.
+  - intros Hm. exists code. split; [|apply Z.eqb_refl]. apply filter_In. split; [|exact Hm].
+    apply key_matches_range in Hm. unfold codes. apply in_map_iff. exists (Z.to_nat code). split; [lia|apply in_seq; lia].
 Qed.
 
 Lemma match_status_spec k code : wf_key k = true -> match_status_code k code = Some (key_matches k code).
